@@ -232,10 +232,10 @@ ObsChecks(c, o) ==
               <<"revalidation_identical", o.revalid>>,
               <<"mover_not_in_check", ~o.mover_in_check>>}
         ELSE {})
-  \cup (IF Prop = "C05"
-        THEN {<<"hash_eq_scratch", o.last.der.hash = o.last.der.scratch>>,
-              <<"sets_eq_scratch", SetsMatch(o.last.der, Scratch(PosOfJson(o.last.pos)))>>}
-        ELSE {})
+  \* (C05 inside chains; also evaluated under the chain properties themselves: a chain whose live board carries
+  \*  a wrong hash or occupancy set is not a faithful record - its later answers are computed from them)
+  \cup {<<"hash_eq_scratch", o.last.der.hash = o.last.der.scratch>>,
+        <<"sets_eq_scratch", SetsMatch(o.last.der, Scratch(PosOfJson(o.last.pos)))>>}
 
 \* the walker steps of one c_walk event, simulated on the abstract walker
 RECURSIVE WalkChecks(_, _, _, _)
@@ -573,8 +573,8 @@ TMoveApiChecks(e) ==
    <<"x_null_move", MoveOfJson(e.null_move) = <<0, 0, 0, 0>> /\ e.null_uci = UciOf(<<0, 0, 0, 0>>) /\ e.kind_null_default = KNull>>}
 
 TGeometryChecks(e) ==
-  {<<"shift", \A s \in Sq : \A df \in -8..8 : \A dr \in -8..8 :
-                e.shifts[s + 1][(df + 8) * 17 + (dr + 8) + 1] = Shift(s, df, dr)>>,
+  {<<"shift", LET rg == e.shift_range IN rg >= 8 /\ \A s \in Sq : \A df \in -rg..rg : \A dr \in -rg..rg :
+                e.shifts[s + 1][(df + rg) * (2 * rg + 1) + (dr + rg) + 1] = Shift(s, df, dr)>>,
    <<"add", \A s \in Sq : e.adds[s + 1] = SortedSeq({d \in -70..70 : s + d \in 0..63})>>,
    \* huge offsets (|delta| >= 2^32 ... 2^63) always leave the board
    <<"shift_by_huge_offsets_leaves_the_board", e.extreme_on_board = <<>> /\ e.extreme_tried > 0>>}
@@ -646,6 +646,12 @@ EventChecks(e) ==
     [] e.ev = "t_values" -> TValuesChecks(e)
     [] e.ev = "t_chars" -> TCharsChecks(e)
     [] e.ev = "t_strings" -> TStringsChecks(e)
+    [] e.ev = "wf_sweep" ->
+         {<<"no_panic", e.panics = 0 /\ e.tried = 9 * 12 * 64 * 64>>,
+          \* (which tuples count as well-formed is the library's own definition - documented, transcribed in
+          \*  Rules!WellFormed - but no listed property pins it: a note)
+          <<"x_move_new_accepts_exactly_the_well_formed_tuples",
+              {MoveOfJson(e.accepted[i]) : i \in 1..Len(e.accepted)} = AllWellFormed>>}
     [] e.ev = "t_consts" -> TConstsChecks(e)
     [] e.ev = "t_moveapi" -> TMoveApiChecks(e)
     [] e.ev = "t_geometry" -> TGeometryChecks(e)
